@@ -2,6 +2,7 @@
 Engine E1, full product of launch x speed x altitude x limit configuration x range x mode under a watchdog."""
 import itertools
 
+from mc.core import bits
 from mc.world import row_bits
 
 PID = 'C04'
@@ -191,9 +192,21 @@ def degenerate(cell):
             out.append({'msg': f'fire(range {rng} yd, step {step}, extra={extra}) returned no rows', 'key': None})
         elif (rows[-1].distance >> U.Yard) < rng * (1 - 1e-9):
             out.append({'msg': f'fire(range {rng} yd, step {step}, extra={extra}) returned normally but the last row is at {rows[-1].distance >> U.Yard!r} yd', 'key': None})
-    except pb.RangeError:
-        pass
-    return {'v': out, 'n': 1, 'nt': cell}
+    except pb.RangeError as e:
+        rows = e.incomplete_trajectory
+        if not rows or e.last_distance is None or e.last_distance.raw_value != rows[-1].distance.raw_value:
+            out.append({'msg': f'fire(range {rng} yd, step {step}, extra={extra}): range error with {len(rows)} row(s) reports last_distance {e.last_distance!r}, '
+                               f'the last row is at {rows[-1].distance if rows else None!r}', 'key': None})
+    # the same request for a launch that is below the velocity limit from the start: an error whose partial trajectory may be a single row
+    slow = pb.Shot(pb.Weapon(U.Inch(2), U.Inch(12)), pb.Ammo(dm, U.FPS(0)))
+    try:
+        calc.fire(slow, *args, extra_data=extra)
+    except pb.RangeError as e:
+        rows = e.incomplete_trajectory
+        if not rows or e.last_distance is None or e.last_distance.raw_value != rows[-1].distance.raw_value:
+            out.append({'msg': f'zero-velocity launch, fire(range {rng} yd, step {step}, extra={extra}): range error with {len(rows)} row(s) reports last_distance '
+                               f'{e.last_distance!r}, the last row is at {rows[-1].distance if rows else None!r}', 'key': None})
+    return {'v': out, 'n': 2, 'nt': cell}
 
 
 def after_failure(cell):
@@ -236,8 +249,44 @@ def after_failure(cell):
     return {'v': out, 'n': 7, 'nt': cell}
 
 
+def debug_switch(cell):
+    """the public debug switch (set_debug) turns logging on - nothing else: every kind of computation gives the same result, bit for bit, and ends
+    the same way with it on (the log records themselves are discarded here)"""
+    import logging
+    import py_ballisticcalc as pb
+    U = pb.Unit
+    kind = cell
+    dm = pb.DragModel(0.223, pb.TableG7, U.Grain(168), U.Inch(0.308), U.Inch(1.282))
+
+    def run():
+        shot = pb.Shot(pb.Weapon(U.Inch(2), U.Inch(12)), pb.Ammo(dm, U.FPS(2750)), relative_angle=U.Degree(1))
+        calc = pb.Calculator(_config={'cMinimumVelocity': 2700.0}) if kind == 'limited' else pb.Calculator()
+        try:
+            if kind == 'zero':
+                return ['ok', bits(calc.set_weapon_zero(shot, U.Foot(60)).raw_value)]
+            rows = calc.fire(shot, U.Foot(90), U.Foot(30), kind == 'extra', 0.01 if kind == 'timed' else 0.0).trajectory
+            return ['ok', [row_bits(r) for r in rows]]
+        except pb.RangeError as e:
+            return [e.reason, [row_bits(r) for r in e.incomplete_trajectory]]
+    lg = logging.getLogger('py_balcalc')
+    was_disabled = lg.disabled
+    off = run()
+    try:
+        lg.disabled = True
+        pb.set_debug(True)
+        on = run()
+    finally:
+        pb.set_debug(False)
+        lg.setLevel(logging.CRITICAL)
+        lg.disabled = was_disabled
+    out = []
+    if on != off:
+        out.append({'msg': f'{kind}: with set_debug(True) the computation ends with {on[0]!r} / different rows; with debug off {off[0]!r}', 'key': None})
+    return {'v': out, 'n': 2, 'nt': cell}
+
+
 BUDGETS = {'degenerate': 30}
-PARTS = {'fire': fire, 'align': align, 'degenerate': degenerate, 'after_failure': after_failure}
+PARTS = {'fire': fire, 'align': align, 'degenerate': degenerate, 'after_failure': after_failure, 'debug_switch': debug_switch}
 
 
 def plan(tier):
@@ -287,4 +336,4 @@ def plan(tier):
           if not (rng == 50.0 and step == 10.0)]
     af = [[cfg, first] for cfg in ({'cMaximumDrop': -40.0}, {'cMinimumVelocity': 1500.0}, {'cMinimumAltitude': -30.0}, {})
           for first in ('zero_out_of_reach', 'zero_steep', 'fire_limit', 'zero_ok')]
-    return [('fire', cells), ('align', al), ('degenerate', dg), ('after_failure', af)]
+    return [('fire', cells), ('align', al), ('degenerate', dg), ('after_failure', af), ('debug_switch', ['plain', 'extra', 'timed', 'zero', 'limited'])]
